@@ -21,6 +21,43 @@ from common import VERIF, Check, LeanDriver, rng
 PROP = "C04"
 
 
+def input_change(r, p):
+    """(program, stored, steps, per-pass programs) or None — the function's inputs change once between passes:
+    create with inputs A, (a quiet pass,) the value of one input-driven leaf changes (inputs B: one correction under
+    patch / recreate), then unchanged passes with inputs B, which have to be quiet.  Most of the time the leaf
+    sits below a key listed in x-koreo-compare-last-applied (where the comparison reads the annotation koreo
+    wrote, not the live value)."""
+    if not p.get("createEnabled", True):
+        return None
+    if r.random() < 0.7 or not p.get("planted"):
+        p = rf45.add_input_subtree(r, p, la=r.random() < 0.8)
+    got = rf45.vary_inputs(r, p)
+    if got is None:
+        return None
+    pb, _ = got
+    t = rf45.target_of(p)
+    tb = rf45.target_of(pb)
+
+    def deco_a(cur):
+        return None if cur is None else g.decorate_object(r, t, cur)
+
+    def deco_b(cur):
+        return None if cur is None else g.decorate_object(r, tb, cur)
+
+    c = r.random()
+    if c < 0.5:
+        steps, progs = [None, None, None, None, None], [p, p, pb, pb, pb]
+    elif c < 0.7:
+        steps, progs = [None, None, None, None], [p, pb, pb, pb]
+    elif c < 0.85:
+        steps, progs = [None, None, None, deco_b, None], [p, p, pb, pb, pb]
+    else:           # and back again: A -> B -> A
+        steps, progs = [None, None, None, None, None], [p, pb, pb, p, p]
+    if p["policy"] == "recreate":
+        steps, progs = steps + [None], progs + [progs[-1]]
+    return p, None, steps, progs
+
+
 def scenarios(r, p):
     """(initial stored object, steps, faults) — create then decorate twice; co-owners; an error answer to the GET"""
     stored, steps = _scenarios(r, p)
@@ -107,8 +144,8 @@ def _scenarios(r, p):
     return None, [None, deco_drop_owner, None]
 
 
-def check_scenario(ck, drv, p, stored, steps, faults=None):
-    got = rf45.run_scenario(ck, drv, p, stored, steps, faults=faults)
+def check_scenario(ck, drv, p, stored, steps, faults=None, programs=None):
+    got = rf45.run_scenario(ck, drv, p, stored, steps, faults=faults, programs=programs)
     if got is None:
         return
     obs, _ = got
@@ -117,13 +154,19 @@ def check_scenario(ck, drv, p, stored, steps, faults=None):
         ck.nontriv(("e", rf45.cn(p["T"]), p["policy"], rf45.cn([o["before"] for o in obs])))
     prev = None
     for o in obs:
+        pp = o.get("p") or p                       # the program (inputs, target) this pass ran with
         chained = prev if prev is not None and rf45.cn(prev["after"]) == rf45.cn(o["before"]) else None
         if chained is not None and chained.get("fault") is not None:
             chained = None
-        bad = rf45.oracle_c04_pass(p, o, chained)
+        # "repeated reconciliation with unchanged inputs": the pass before ran with the same target
+        if chained is not None and rf45.cn((chained.get("p") or p)["T"]) != rf45.cn(pp["T"]):
+            chained = None
+        if programs is not None and prev is not None and rf45.cn((prev.get("p") or p)["T"]) != rf45.cn(pp["T"]):
+            ck.count(f"e2e:inputs-changed:{pp['policy']}:{'+'.join(q['m'] for q in o['reqs']) or 'none'}")
+        bad = rf45.oracle_c04_pass(pp, o, chained)
         if bad:
             befores = ([chained["before"]] if chained is not None and "right after" in bad else []) + [o["before"]]
-            case = {"kind": "e2e", "p": p, "befores": befores}
+            case = {"kind": "e2e", "p": pp, "befores": befores}
             if o.get("fault") is not None:
                 case["faults"] = {str(len(befores) - 1): o["fault"]}
             ck.violate(case, bad)
@@ -176,6 +219,11 @@ def run(tier: str) -> int:
         p = rf45.gen_program(r, nulls=r.random() < 0.05)
         stored, steps, faults = scenarios(r, p)
         check_scenario(ck, drv, p, stored, steps, faults)
+    r = rng("c04-e2e-inputs")
+    for _ in range(120 if quick else 1200):
+        ic = input_change(r, rf45.gen_program(r))
+        if ic is not None:
+            check_scenario(ck, drv, ic[0], ic[1], ic[2], None, ic[3])
     if not quick:
         ck.leanchecker()
 
@@ -186,6 +234,9 @@ def run(tier: str) -> int:
             p = rf45.gen_program(r2)
             stored, steps, faults = scenarios(r2, p)
             check_scenario(ck, drv, p, stored, steps, faults)
+            ic = input_change(r2, rf45.gen_program(r2)) if r2.random() < 0.3 else None
+            if ic is not None:
+                check_scenario(ck, drv, ic[0], ic[1], ic[2], None, ic[3])
 
     return ck.finish(
         widen=widen,
